@@ -31,6 +31,18 @@ theorem mkV_bits (v : Val) : mkV (vtOf v) v.bits = v := by
 
 def isTrue (v : Val) : Bool := v.bits ≠ 0
 
+/-- the state shared by all functions of an instance: globals and the linear memory -/
+structure GS where
+  globals : List Val := []
+  mem : Mem := ⟨fun _ => 0, 0⟩
+
+/-- everything a function body reads and writes besides its operand stack -/
+structure Store where
+  locals : List Val := []
+  g : GS := {}
+
+def wasmPage : Nat := 65536
+
 /-- numeric instructions: arity and semantics by opcode name -/
 structure NumSem where
   arity : String → Nat                      -- 1 or 2
@@ -39,15 +51,26 @@ structure NumSem where
       semantics one fuel level down by the module-level theorem): number of parameters and result
       type by function index; the specification side and the emitted-C side of the same callee -/
   callArity : Nat → Option (Nat × Option VT) := fun _ => none
-  callS : Nat → List Val → Out (Option Val) := fun _ _ => .oof
-  callT : Nat → List Val → Out (Option Val) := fun _ _ => .oof
+  callS : Nat → List Val → GS → Out (Option Val × GS) := fun _ _ _ => .oof
+  callT : Nat → List Val → GS → Out (Option Val × GS) := fun _ _ _ => .oof
   /-- call_indirect: by type index; the callee is selected by the table slot -/
   indArity : Nat → Option (Nat × Option VT) := fun _ => none
-  indS : Nat → Nat → List Val → Out (Option Val) := fun _ _ _ => .oof
-  indT : Nat → Nat → List Val → Out (Option Val) := fun _ _ _ => .oof
+  indS : Nat → Nat → List Val → GS → Out (Option Val × GS) := fun _ _ _ _ => .oof
+  indT : Nat → Nat → List Val → GS → Out (Option Val × GS) := fun _ _ _ _ => .oof
+  /-- memory accesses at an effective address (address operand + static offset, no wrap-around): the
+      specification side by opcode, the emitted-C side by the name of the runtime function called;
+      out-of-bounds accesses are outside every property (w2c2 emits no bounds checks): any non-value
+      result other than a trap makes the source semantics `stuck`.  C05 proves the concrete instance. -/
+  loadS : String → Mem → Nat → Out Val := fun _ _ _ => .oof
+  loadT : String → Mem → Nat → Out Val := fun _ _ _ => .oof
+  storeS : String → Mem → Nat → Val → Out Mem := fun _ _ _ _ => .oof
+  storeT : String → Mem → Nat → Val → Out Mem := fun _ _ _ _ => .oof
+  /-- memory.grow: new memory and the i32 result (old size in pages or -1); the same function on both sides
+      (`wasmMemoryGrow`, whose own properties are C05/C18) -/
+  grow : Mem → Nat → Mem × Val := fun m _ => (m, .i32 0xFFFFFFFF)
 
 /-- the operand stack after a call: `n` arguments popped, the result (if any) pushed -/
-def afterCall (stk : List Val) (n : Nat) (rt : Option VT) (r : Option Val) (loc : List Val) (normal : List Val → List Val → α) (stuck : α) : α :=
+def afterCall (stk : List Val) (n : Nat) (rt : Option VT) (r : Option Val) (loc : Store) (normal : List Val → Store → α) (stuck : α) : α :=
   match rt, r with
   | none, none => normal (stk.take (stk.length - n)) loc
   | some _, some v => normal (stk.take (stk.length - n) ++ [v]) loc
@@ -56,9 +79,9 @@ def afterCall (stk : List Val) (n : Nat) (rt : Option VT) (r : Option Val) (loc 
 /-! ## source: WebAssembly -/
 
 inductive ERes
-  | normal (stk : List Val) (locals : List Val)      -- `stk` bottom first
-  | branch (l : Nat) (stk : List Val) (locals : List Val)
-  | ret (stk : List Val) (locals : List Val)
+  | normal (stk : List Val) (store : Store)          -- `stk` bottom first
+  | branch (l : Nat) (stk : List Val) (store : Store)
+  | ret (stk : List Val) (store : Store)
   | trap (t : Trap)
   | oof
   | stuck                                            -- no rule applies (invalid program)
@@ -70,7 +93,7 @@ def topN (n : Nat) (stk : List Val) : List Val := stk.drop (stk.length - n)
 def exitBlock (h : Nat) (bt : Option VT) (stk : List Val) : List Val := stk.take h ++ topN bt.toList.length stk
 
 mutual
-def erunSeq (ns : NumSem) : Nat → List EInstr → List Val → List Val → ERes
+def erunSeq (ns : NumSem) : Nat → List EInstr → List Val → Store → ERes
   | 0, _, _, _ => .oof
   | _ + 1, [], stk, loc => .normal stk loc
   | f + 1, i :: rest, stk, loc =>
@@ -78,7 +101,7 @@ def erunSeq (ns : NumSem) : Nat → List EInstr → List Val → List Val → ER
     | .normal stk' loc' => erunSeq ns f rest stk' loc'
     | r => r
 
-def erunInstr (ns : NumSem) : Nat → EInstr → List Val → List Val → ERes
+def erunInstr (ns : NumSem) : Nat → EInstr → List Val → Store → ERes
   | 0, _, _, _ => .oof
   | f + 1, i, stk, loc =>
     match i with
@@ -99,15 +122,43 @@ def erunInstr (ns : NumSem) : Nat → EInstr → List Val → List Val → ERes
       | .val v => .normal (stk.take (stk.length - n) ++ [v]) loc
       | .trap t => .trap t
       | _ => .stuck
-    | .localGet k => (match loc[k]? with | some v => .normal (stk ++ [v]) loc | none => .stuck)
+    | .localGet k => (match loc.locals[k]? with | some v => .normal (stk ++ [v]) loc | none => .stuck)
     | .localSet k =>
       (match stk.getLast? with
-       | some v => if k < loc.length then .normal stk.dropLast (loc.set k v) else .stuck
+       | some v => if k < loc.locals.length then .normal stk.dropLast { loc with locals := loc.locals.set k v } else .stuck
        | none => .stuck)
     | .localTee k =>
       (match stk.getLast? with
-       | some v => if k < loc.length then .normal stk (loc.set k v) else .stuck
+       | some v => if k < loc.locals.length then .normal stk { loc with locals := loc.locals.set k v } else .stuck
        | none => .stuck)
+    | .globalGet k => (match loc.g.globals[k]? with | some v => .normal (stk ++ [v]) loc | none => .stuck)
+    | .globalSet k =>
+      (match stk.getLast? with
+       | some v => if k < loc.g.globals.length then .normal stk.dropLast { loc with g := { loc.g with globals := loc.g.globals.set k v } } else .stuck
+       | none => .stuck)
+    | .load opcode off =>
+      (match stk.getLast? with
+       | none => .stuck
+       | some a =>
+         match ns.loadS opcode loc.g.mem (a.bits + off) with
+         | .val v => .normal (stk.dropLast ++ [v]) loc
+         | .trap t => .trap t
+         | .oof => .oof
+         | _ => .stuck)
+    | .store opcode off =>
+      if stk.length < 2 then .stuck else
+      let v := stk.getD (stk.length - 1) (.i32 0)
+      let a := stk.getD (stk.length - 2) (.i32 0)
+      (match ns.storeS opcode loc.g.mem (a.bits + off) v with
+       | .val m' => .normal (stk.take (stk.length - 2)) { loc with g := { loc.g with mem := m' } }
+       | .trap t => .trap t
+       | .oof => .oof
+       | _ => .stuck)
+    | .memorySize => .normal (stk ++ [.i32 (BitVec.ofNat 32 (loc.g.mem.size / wasmPage))]) loc
+    | .memoryGrow =>
+      (match stk.getLast? with
+       | none => .stuck
+       | some d => .normal (stk.dropLast ++ [(ns.grow loc.g.mem d.bits).2]) { loc with g := { loc.g with mem := (ns.grow loc.g.mem d.bits).1 } })
     | .block bt body =>
       (match erunSeq ns f body stk loc with
        | .branch 0 stk' loc' => .normal (exitBlock stk.length bt stk') loc'
@@ -144,8 +195,8 @@ def erunInstr (ns : NumSem) : Nat → EInstr → List Val → List Val → ERes
        | none => .stuck
        | some (n, rt) =>
          if stk.length < n then .stuck else
-         match ns.callS fn (topN n stk) with
-         | .val r => afterCall stk n rt r loc .normal .stuck
+         match ns.callS fn (topN n stk) loc.g with
+         | .val r => afterCall stk n rt r.1 { loc with g := r.2 } .normal .stuck
          | .trap t => .trap t
          | .oof => .oof
          | _ => .stuck)
@@ -155,8 +206,8 @@ def erunInstr (ns : NumSem) : Nat → EInstr → List Val → List Val → ERes
        | some (n, rt) =>
          if stk.length < n + 1 then .stuck else
          let idx := stk.getD (stk.length - 1) (.i32 0)
-         match ns.indS ty idx.bits (topN n stk.dropLast) with
-         | .val r => afterCall stk.dropLast n rt r loc .normal .stuck
+         match ns.indS ty idx.bits (topN n stk.dropLast) loc.g with
+         | .val r => afterCall stk.dropLast n rt r.1 { loc with g := r.2 } .normal .stuck
          | .trap t => .trap t
          | .oof => .oof
          | _ => .stuck)
@@ -167,7 +218,7 @@ end
 
 structure MSt where
   slots : Slot → Nat                -- raw bits of each C variable s<t><k>
-  locals : List Val                 -- C locals l<k>
+  store : Store                     -- C locals l<k>, the instance's globals and memory
 
 def MSt.get (σ : MSt) (s : Slot) : Val := mkV s.ty (σ.slots s)
 def MSt.set (σ : MSt) (s : Slot) (v : Val) : MSt :=
@@ -213,8 +264,29 @@ def execStmt (ns : NumSem) : Nat → MStmtC → MSt → MRes
        | .trap t => .trap t
        | _ => .stuck)
     | .const dst bits => .normal (σ.set dst (mkV dst.ty bits))
-    | .localGet dst l => (match σ.locals[l]? with | some v => .normal (σ.set dst v) | none => .stuck)
-    | .localSet l src => if l < σ.locals.length then .normal { σ with locals := σ.locals.set l (σ.get src) } else .stuck
+    | .localGet dst l => (match σ.store.locals[l]? with | some v => .normal (σ.set dst v) | none => .stuck)
+    | .localSet l src => if l < σ.store.locals.length then .normal { σ with store := { σ.store with locals := σ.store.locals.set l (σ.get src) } } else .stuck
+    | .globalGet dst k => (match σ.store.g.globals[k]? with | some v => .normal (σ.set dst v) | none => .stuck)
+    | .globalSet k src =>
+      if k < σ.store.g.globals.length then
+        .normal { σ with store := { σ.store with g := { σ.store.g with globals := σ.store.g.globals.set k (σ.get src) } } }
+      else .stuck
+    | .load dst fn addr off =>
+      (match ns.loadT fn σ.store.g.mem ((σ.get addr).bits + off) with
+       | .val v => .normal (σ.set dst v)
+       | .trap t => .trap t
+       | .oof => .oof
+       | _ => .stuck)
+    | .store fn addr off v =>
+      (match ns.storeT fn σ.store.g.mem ((σ.get addr).bits + off) (σ.get v) with
+       | .val m' => .normal { σ with store := { σ.store with g := { σ.store.g with mem := m' } } }
+       | .trap t => .trap t
+       | .oof => .oof
+       | _ => .stuck)
+    | .memSize dst => .normal (σ.set dst (.i32 (BitVec.ofNat 32 (σ.store.g.mem.size / wasmPage))))
+    | .memGrow dst src =>
+      .normal (({ σ with store := { σ.store with g := { σ.store.g with mem := (ns.grow σ.store.g.mem (σ.get src).bits).1 } } } : MSt).set dst
+        (ns.grow σ.store.g.mem (σ.get src).bits).2)
     | .select dst c a b => .normal (σ.set dst (if isTrue (σ.get c) then σ.get a else σ.get b))
     | .goto cp L => .jump L (doCopy σ cp)
     | .ifGoto c cp L => if isTrue (σ.get c) then .jump L (doCopy σ cp) else .normal σ
@@ -237,21 +309,21 @@ def execStmt (ns : NumSem) : Nat → MStmtC → MSt → MRes
        | r => r)
     | .unreachable => .trap .unreachable
     | .call res fn args =>
-      (match ns.callT fn (args.map σ.get) with
+      (match ns.callT fn (args.map σ.get) σ.store.g with
        | .val r =>
-         (match res, r with
-          | none, none => .normal σ
-          | some d, some v => .normal (σ.set d v)
+         (match res, r.1 with
+          | none, none => .normal { σ with store := { σ.store with g := r.2 } }
+          | some d, some v => .normal (({ σ with store := { σ.store with g := r.2 } } : MSt).set d v)
           | _, _ => .stuck)
        | .trap t => .trap t
        | .oof => .oof
        | _ => .stuck)
     | .callIndirect res ty _ idx args =>
-      (match ns.indT ty (σ.get idx).bits (args.map σ.get) with
+      (match ns.indT ty (σ.get idx).bits (args.map σ.get) σ.store.g with
        | .val r =>
-         (match res, r with
-          | none, none => .normal σ
-          | some d, some v => .normal (σ.set d v)
+         (match res, r.1 with
+          | none, none => .normal { σ with store := { σ.store with g := r.2 } }
+          | some d, some v => .normal (({ σ with store := { σ.store with g := r.2 } } : MSt).set d v)
           | _, _ => .stuck)
        | .trap t => .trap t
        | .oof => .oof
@@ -265,16 +337,20 @@ end
 def Rel (stack : List VT) (stk : List Val) (σ : MSt) : Prop :=
   stk.length = stack.length ∧ ∀ k, ∀ h : k < stack.length, ∀ h' : k < stk.length, σ.get ⟨stack[k], k⟩ = stk[k]
 
+/-- the instance's globals have their declared types -/
+def GTyped (ctx : Ctx) (g : GS) : Prop :=
+  g.globals.length = ctx.globalTypes.length ∧ ∀ k (h : k < g.globals.length) (h' : k < ctx.globalTypes.length), vtOf g.globals[k] = ctx.globalTypes[k]
+
 /-! ## whole functions -/
 
 def zeroVal : VT → Val
   | .i32 => .i32 0 | .i64 => .i64 0 | .f32 => .f32 0 | .f64 => .f64 0
 
-/-- parameters hold the arguments, declared locals start at zero -/
-def initLocals (locals : List VT) (args : List Val) : List Val := args ++ locals.map zeroVal
+/-- parameters hold the arguments, declared locals start at zero; globals and memory are the instance's -/
+def initLocals (locals : List VT) (args : List Val) (g : GS := {}) : Store := { locals := args ++ locals.map zeroVal, g := g }
 
 inductive FRes
-  | value (v : Option Val)          -- returned (with the result value, if the function has one)
+  | value (v : Option Val) (g : GS)   -- returned (with the result value, if the function has one) leaving globals/memory `g`
   | trap (t : Trap)
   | oof
   | stuck
@@ -283,10 +359,10 @@ inductive FRes
 /-- how a function invocation ends, given how its body ended: falling off the end, `br` to the
     function label and `return` all return the top of the stack -/
 def srcFinish (result : Option VT) : ERes → FRes
-  | .normal stk _ | .branch 0 stk _ | .ret stk _ =>
+  | .normal stk loc | .branch 0 stk loc | .ret stk loc =>
     (match result with
-     | none => .value none
-     | some _ => (match stk.getLast? with | some v => .value (some v) | none => .stuck))
+     | none => .value none loc.g
+     | some _ => (match stk.getLast? with | some v => .value (some v) loc.g | none => .stuck))
   | .branch (_ + 1) _ _ => .stuck
   | .trap t => .trap t
   | .oof => .oof
@@ -294,25 +370,25 @@ def srcFinish (result : Option VT) : ERes → FRes
 
 /-- invocation of a WebAssembly function: parameters hold the arguments, declared locals start at
     zero, the body runs as a block labelled with the result type -/
-def runFuncSrc (ns : NumSem) (fuel : Nat) (locals : List VT) (result : Option VT) (body : List EInstr) (args : List Val) : FRes :=
-  srcFinish result (erunSeq ns fuel body [] (initLocals locals args))
+def runFuncSrc (ns : NumSem) (fuel : Nat) (locals : List VT) (result : Option VT) (body : List EInstr) (args : List Val) (g : GS := {}) : FRes :=
+  srcFinish result (erunSeq ns fuel body [] (initLocals locals args g))
 
-def initMSt (locals : List VT) (args : List Val) : MSt := { slots := fun _ => 0, locals := initLocals locals args }
+def initMSt (locals : List VT) (args : List Val) (g : GS := {}) : MSt := { slots := fun _ => 0, store := initLocals locals args g }
 
 /-- after the body: `L0:;` and `return s<t>0;` (emitted only when some slot variable was declared:
     without it, leaving a non-void function is undefined, `stuck`) -/
 def tgtFinish (cf : Model.CFunc) : MRes → FRes
   | .normal σ | .jump 0 σ =>
     (match cf.result with
-     | none => .value none
-     | some rt => if cf.returnsSlot then .value (some (σ.get ⟨rt, 0⟩)) else .stuck)
+     | none => .value none σ.store.g
+     | some rt => if cf.returnsSlot then .value (some (σ.get ⟨rt, 0⟩)) σ.store.g else .stuck)
   | .jump (_ + 1) _ => .stuck
   | .trap t => .trap t
   | .oof => .oof
   | .stuck => .stuck
 
 /-- the emitted C function: parameters and zero-initialised locals, the body, the epilogue -/
-def runFuncTgt (ns : NumSem) (fuel : Nat) (cf : Model.CFunc) (args : List Val) : FRes :=
-  tgtFinish cf (execSeq ns fuel cf.body (initMSt cf.localTypes args))
+def runFuncTgt (ns : NumSem) (fuel : Nat) (cf : Model.CFunc) (args : List Val) (g : GS := {}) : FRes :=
+  tgtFinish cf (execSeq ns fuel cf.body (initMSt cf.localTypes args g))
 
 end W2c2Verif.Sim
